@@ -1499,8 +1499,7 @@ class Backend:
             m = regex.search(arg)
             while m is not None:
                 index = int(m.group(1))
-                src = f'@OUTPUT{index}@'
-                arg = arg.replace(src, os.path.join(private_dir, output_list[index]))
+                arg = arg.replace(m.group(0), os.path.join(private_dir, output_list[index]))
                 m = regex.search(arg)
             newargs.append(arg)
         return newargs
